@@ -458,6 +458,13 @@ pub fn run(tier: &str, seed: i64) -> Outcome {
         Space::slice(Universe::U4 { a: code(Q, true), b: code(B, false), files: None }, if q { 192 } else { 6 }, off),
         Space::slice(Universe::U4 { a: code(Q, true), b: code(R, false), files: None }, if q { 192 } else { 6 }, off),
         Space::slice(Universe::U4 { a: code(Q, false), b: code(N, true), files: None }, if q { 192 } else { 6 }, off),
+        // bare minor pieces: mate cannot be forced there, but mating positions and mates in one exist (KB v KN, KB v KB,
+        // KN v KN, KNN v K) - "insufficient material" is not "no mate on the board"
+        Space::slice(Universe::U4 { a: code(B, true), b: code(N, false), files: None }, if q { 96 } else { 2 }, off),
+        Space::slice(Universe::U4 { a: code(B, true), b: code(B, false), files: None }, if q { 96 } else { 2 }, off),
+        Space::slice(Universe::U4 { a: code(N, true), b: code(N, false), files: None }, if q { 96 } else { 2 }, off),
+        Space::slice(Universe::U4 { a: code(N, true), b: code(N, true), files: None }, if q { 96 } else { 2 }, off),
+        Space::slice(Universe::U4 { a: code(N, false), b: code(B, true), files: None }, if q { 192 } else { 4 }, off),
         Space::slice(Universe::UZ { a: B, b: B, d: N }, if q { 384 } else { 6 }, off),
         Space::slice(Universe::UZ { a: B, b: N, d: N }, if q { 768 } else { 6 }, off),
         Space::slice(Universe::UZ { a: R, b: N, d: N }, if q { 768 } else { 6 }, off),
